@@ -1,10 +1,15 @@
 """C19: mesh operators are exact on linear fields and respect mesh connectivity.
 
 Correspondence: the Lean model `Model/Mesh.lean` (driver ops `m19 …`) against `df.gradient`, `df.gradient_3D`,
-`df.hotspot`, `df.meshmapper` (one simplex), `df.surface_3D` (hexahedral blocks) on generated meshes:
-structured hex blocks up to 4x4x4, tetrahedra from split hexes, planar quad meshes, perturbed node positions,
-node / element id maps (1..N, 0-based, offset, gaps, reversed, permuted, negative), row orders (element blocks,
-reversed / shuffled blocks, interleaved elements, fully shuffled rows) and both index level orders.
+`df.hotspot`, `df.meshmapper` (whole meshes: the triangulation of `scipy.spatial.Delaunay` is handed to the model;
+and single simplices), `df.surface_3D` (hexahedral blocks) on generated meshes:
+structured hex blocks up to 4x4x4, tetrahedra from split hexes, quadratic elements (hex20, hex16, tet10), mixed
+hex+tet meshes, meshes with an unsupported (6-node) element, planar quad meshes in planes of any orientation
+(z/x/y = const, integer lattice planes, rotated planes), bar meshes (nodes on a line), perturbed node positions,
+coordinate scales 1e-6 … 1e3 (uniform and anisotropic), node / element id maps (1..N, 0-based, offset, gaps,
+reversed, permuted, negative), row orders (element blocks, reversed / shuffled blocks, interleaved elements, fully
+shuffled rows), both index level orders, and frames that carry more than [x, y, z, value] (decoy numeric / string
+columns, a second value column, permuted column order, other value column names, integer value dtype).
 Oracle: the property's own relations on the real code, independent of the Lean model."""
 import json
 import math
@@ -31,9 +36,17 @@ SOURCES = [
     "src/pylife/mesh/meshsignal.py",
 ]
 
+EPS = 2.220446049250313e-16
 HEX = [(0, 0, 0), (1, 0, 0), (1, 1, 0), (0, 1, 0), (0, 0, 1), (1, 0, 1), (1, 1, 1), (0, 1, 1)]
 # six tetrahedra around the diagonal 0-6 of a hexahedron (local hex numbering)
 TETS = [(0, 1, 2, 6), (0, 2, 3, 6), (0, 3, 7, 6), (0, 7, 4, 6), (0, 4, 5, 6), (0, 5, 1, 6)]
+# two wedges (6-node prisms: not a supported element of gradient_3D) that fill a hexahedron
+WEDGES = [(0, 1, 2, 4, 5, 6), (0, 2, 3, 4, 6, 7)]
+# mid-side nodes of the quadratic elements in the Abaqus (C3D20 / C3D10) = Ansys (SOLID186 / SOLID187) order
+HEX_EDGES = [(0, 1), (1, 2), (2, 3), (3, 0), (4, 5), (5, 6), (6, 7), (7, 4), (0, 4), (1, 5), (2, 6), (3, 7)]
+TET_EDGES = [(0, 1), (1, 2), (0, 2), (0, 3), (1, 3), (2, 3)]
+NCORNER = {8: 8, 16: 8, 20: 8, 4: 4, 10: 4}
+PLANAR = ("quad", "bar")
 
 _loaded = []
 
@@ -94,41 +107,117 @@ def is_one_to_n(ids):
     return sorted(ids) == list(range(1, len(ids) + 1))
 
 
+def quat_rot(q):
+    a, b, c, d = np.asarray(q, dtype=float) / np.linalg.norm(q)
+    return np.array([[a * a + b * b - c * c - d * d, 2 * (b * c - a * d), 2 * (b * d + a * c)],
+                     [2 * (b * c + a * d), a * a - b * b + c * c - d * d, 2 * (c * d - a * b)],
+                     [2 * (b * d - a * c), 2 * (c * d + a * b), a * a - b * b - c * c + d * d]])
+
+
+def plane_frame(mesh):
+    """(o, a, b): a planar mesh has the points o + u*a + v*b, a bar mesh o + u*a (before `scale`)."""
+    pl = mesh.get("plane") or {"kind": "z", "c": float(mesh.get("z0", 0.0))}
+    k = pl["kind"]
+    c = float(pl.get("c", 0.0))
+    if k == "z":
+        return (0.0, 0.0, c), (1.0, 0.0, 0.0), (0.0, 1.0, 0.0)
+    if k == "x":
+        return (c, 0.0, 0.0), (0.0, 1.0, 0.0), (0.0, 0.0, 1.0)
+    if k == "y":
+        return (0.0, c, 0.0), (0.0, 0.0, 1.0), (1.0, 0.0, 0.0)
+    if k == "lattice":
+        return tuple(map(float, pl["o"])), tuple(map(float, pl["a"])), tuple(map(float, pl["b"]))
+    if k == "rot":
+        R = quat_rot(pl["q"])
+        return tuple(map(float, pl["o"])), tuple(R[:, 0]), tuple(R[:, 1])
+    raise ValueError(k)
+
+
+def tangent_basis(mesh):
+    """Orthonormal basis (3 x k matrix) of the directions a planar (k = 2) / bar (k = 1) mesh extends in, after
+    `scale`; None for 3-D meshes."""
+    et = mesh.get("etype", "hex")
+    if et not in PLANAR:
+        return None
+    o, a, b = plane_frame(mesh)
+    s = np.array(mesh.get("scale", [1.0, 1.0, 1.0]), dtype=float)
+    vec = [np.array(a) * s] + ([np.array(b) * s] if et == "quad" else [])
+    q, _ = np.linalg.qr(np.array(vec).T)
+    return q
+
+
 def build(mesh):
-    """-> (coords: list of (x,y,z) per internal node, elems: list of internal node lists, grid: list of (i,j,k),
-    rows: list of (internal node, internal elem) in frame order, nid, eid)."""
+    """-> (coords: list of (x,y,z) per internal node, elems: list of internal node lists, grid: list of (i,j,k) (None
+    for mid-side nodes), rows: list of (internal node, internal elem) in frame order, nid, eid)."""
     nx, ny, nz = mesh["dims"]
     et = mesh.get("etype", "hex")
     amp = float(mesh.get("amp", 0.0))
     r = random.Random(mesh.get("pseed", 0))
-    planar = et == "quad"
+    planar = et in PLANAR
     if planar:
         nz = 0
+    if et == "bar":
+        ny = 0
+    dyadic = planar and (mesh.get("plane") or {}).get("kind") == "lattice"
+    o, a, b = plane_frame(mesh) if planar else (None, None, None)
     nn = lambda i, j, k: i + (nx + 1) * (j + (ny + 1) * k)
     coords, grid = [], []
     for k in range(nz + 1):
         for j in range(ny + 1):
             for i in range(nx + 1):
                 dx, dy, dz = (amp * r.uniform(-1, 1) for _ in range(3))
-                coords.append((i + dx, j + dy, (k + dz) if not planar else float(mesh.get("z0", 0.0))))
+                if dyadic:      # every coordinate exactly representable: the rows of the least-squares systems are EXACTLY coplanar
+                    dx, dy = round(dx * 64) / 64, round(dy * 64) / 64
+                if planar:
+                    u, v = i + dx, (j + dy if et == "quad" else 0.0)
+                    coords.append(tuple(o[c] + u * a[c] + v * b[c] for c in range(3)))
+                else:
+                    coords.append((i + dx, j + dy, k + dz))
                 grid.append((i, j, k))
     sx, sy, sz = mesh.get("scale", [1.0, 1.0, 1.0])
     coords = [(x * sx, y * sy, z * sz) for x, y, z in coords]
     elems = []
-    if planar:
-        for b in range(ny):
-            for a in range(nx):
-                elems.append([nn(a, b, 0), nn(a + 1, b, 0), nn(a + 1, b + 1, 0), nn(a, b + 1, 0)])
+    if et == "bar":
+        for a_ in range(nx):
+            elems.append([nn(a_, 0, 0), nn(a_ + 1, 0, 0)])
+    elif et == "quad":
+        for b_ in range(ny):
+            for a_ in range(nx):
+                elems.append([nn(a_, b_, 0), nn(a_ + 1, b_, 0), nn(a_ + 1, b_ + 1, 0), nn(a_, b_ + 1, 0)])
     else:
+        mr = random.Random(mesh.get("mseed", 0))
+        ncell = nx * ny * nz
+        odd_cell = mr.randrange(ncell) if et == "odd" else -1
+        mids = {}
+
+        def mid(p, q):
+            key = (min(p, q), max(p, q))
+            if key not in mids:
+                mids[key] = len(coords)
+                coords.append(tuple((coords[p][c] + coords[q][c]) / 2 for c in range(3)))
+                grid.append(None)
+            return mids[key]
+        cell = 0
         for c in range(nz):
-            for b in range(ny):
-                for a in range(nx):
-                    h = [nn(a + di, b + dj, c + dk) for di, dj, dk in HEX]
-                    if et == "hex":
-                        elems.append(h)
-                    else:
+            for b_ in range(ny):
+                for a_ in range(nx):
+                    h = [nn(a_ + di, b_ + dj, c + dk) for di, dj, dk in HEX]
+                    split = et in ("tet", "tet10") or (et == "mixed" and mr.random() < 0.5)
+                    if cell == odd_cell:
+                        for w in WEDGES:
+                            elems.append([h[q] for q in w])
+                    elif split:
                         for t in TETS:
-                            elems.append([h[q] for q in t])
+                            conn = [h[q] for q in t]
+                            if et == "tet10":
+                                conn += [mid(conn[p], conn[q]) for p, q in TET_EDGES]
+                            elems.append(conn)
+                    else:
+                        conn = list(h)
+                        if et in ("hex20", "hex16"):
+                            conn += [mid(h[p], h[q]) for p, q in (HEX_EDGES if et == "hex20" else HEX_EDGES[:8])]
+                        elems.append(conn)
+                    cell += 1
     blocks = [[(n, e) for n in conn] for e, conn in enumerate(elems)]
     ro = mesh.get("rows", "blocks")
     rr = random.Random(mesh.get("rseed", 0))
@@ -160,6 +249,26 @@ def build(mesh):
 HEXN = {0: (1, 3, 4), 1: (0, 2, 5), 2: (1, 3, 6), 3: (0, 2, 7), 4: (0, 5, 7), 5: (1, 4, 6), 6: (2, 5, 7), 7: (3, 4, 6)}
 
 
+def corner_angles(built):
+    """Per (element, local corner) the solid angle spanned by the three element edges at that corner (Van
+    Oosterom-Strackee), or None when a corner is inverted against the unperturbed block."""
+    coords, elems = built[0], built[1]
+    P = np.asarray(coords, dtype=float)
+    out = {}
+    for ei, conn in enumerate(elems):
+        for a, nb in HEXN.items():
+            p = P[conn[a]]
+            e = [P[conn[q]] - p for q in nb]
+            ref = [np.subtract(HEX[q], HEX[a]) for q in nb]
+            det = float(np.dot(e[0], np.cross(e[1], e[2])))
+            if det * float(np.dot(ref[0], np.cross(ref[1], ref[2]))) <= 0:
+                return None
+            u = [v / np.linalg.norm(v) for v in e]
+            den = 1 + u[0] @ u[1] + u[1] @ u[2] + u[2] @ u[0]
+            out[(ei, a)] = 2 * math.atan2(abs(float(np.dot(u[0], np.cross(u[1], u[2])))), den)
+    return out
+
+
 def block_untangled(built, dims):
     """Mesh validity for the surface cases, independent of pyLife: every element corner keeps the orientation
     of the unperturbed block (positive corner Jacobian), the corner solid angles (Van Oosterom-Strackee, spanned
@@ -167,19 +276,12 @@ def block_untangled(built, dims):
     it (<= 3*pi; a block has 2*pi, pi, pi/2 there) at every boundary node.  Strongly perturbed blocks can be tangled; those are not meshes."""
     coords, elems, grid = built[0], built[1], built[2]
     nx, ny, nz = dims
-    P = np.asarray(coords, dtype=float)
+    ang = corner_angles(built)
+    if ang is None:
+        return False
     tot = np.zeros(len(coords))
-    for conn in elems:
-        for a, nb in HEXN.items():
-            p = P[conn[a]]
-            e = [P[conn[q]] - p for q in nb]
-            ref = [np.subtract(HEX[q], HEX[a]) for q in nb]
-            det = float(np.dot(e[0], np.cross(e[1], e[2])))
-            if det * float(np.dot(ref[0], np.cross(ref[1], ref[2]))) <= 0:
-                return False
-            u = [v / np.linalg.norm(v) for v in e]
-            den = 1 + u[0] @ u[1] + u[1] @ u[2] + u[2] @ u[0]
-            tot[conn[a]] += 2 * math.atan2(abs(float(np.dot(u[0], np.cross(u[1], u[2])))), den)
+    for (ei, a), w in ang.items():
+        tot[elems[ei][a]] += w
     for n, (i, j, k) in enumerate(grid):
         boundary = i in (0, nx) or j in (0, ny) or k in (0, nz)
         if boundary and tot[n] > 3 * math.pi:
@@ -189,15 +291,43 @@ def block_untangled(built, dims):
     return True
 
 
+DECOYS = ("S11", "T", "part", "w")
+
+
 def frame(mesh, built, values):
-    """values: list per ROW (frame order)."""
+    """The mesh frame.  `values`: list per ROW (frame order).  `mesh['cols']` (optional) makes the frame carry more than
+    [x, y, z, value]: {'vkey': name of the value column, 'extra': decoy columns out of DECOYS ('w' is a second value
+    column), 'shuffle': permute the column order, 'seed', 'vint': integer dtype for integral values}."""
     coords, elems, grid, rows, nid, eid = built
-    df = pd.DataFrame({
-        "node_id": [nid[n] for n, e in rows], "element_id": [eid[e] for n, e in rows],
-        "x": [coords[n][0] for n, e in rows], "y": [coords[n][1] for n, e in rows],
-        "z": [coords[n][2] for n, e in rows], "v": [float(v) for v in values]})
+    cols = mesh.get("cols") or {}
+    vkey = cols.get("vkey", "v")
+    r = random.Random(cols.get("seed", 0))
+    vals = [float(v) for v in values]
+    if cols.get("vint") and all(v == v and v == int(v) for v in vals):
+        vals = [int(v) for v in vals]
+    data = {"x": [coords[n][0] for n, e in rows], "y": [coords[n][1] for n, e in rows],
+            "z": [coords[n][2] for n, e in rows], vkey: vals}
+    for name in cols.get("extra", []):
+        if name == "S11":
+            data[name] = [r.uniform(-50, 50) for _ in rows]
+        elif name == "T":
+            data[name] = [r.randint(0, 400) for _ in rows]
+        elif name == "part":
+            data[name] = [r.choice(["rim", "hub", "web"]) for _ in rows]
+        elif name == "w":      # a second value column: another field on the same nodes
+            gw = [r.uniform(-3, 3) for _ in range(3)]
+            data[name] = [sum(gw[c] * coords[n][c] for c in range(3)) + 7.0 for n, e in rows]
+    order = list(data)
+    if cols.get("shuffle"):
+        r.shuffle(order)
+    df = pd.DataFrame({"node_id": [nid[n] for n, e in rows], "element_id": [eid[e] for n, e in rows],
+                       **{k: data[k] for k in order}})
     lv = ["element_id", "node_id"] if mesh.get("levels", "en") == "en" else ["node_id", "element_id"]
     return df.set_index(lv)
+
+
+def vkey_of(mesh):
+    return (mesh.get("cols") or {}).get("vkey", "v")
 
 
 def field_values(field, built):
@@ -217,8 +347,8 @@ def field_values(field, built):
         return [f(coords[n]) for n, e in rows]
     if t == "rowwise":    # element-nodal values: one node carries different values in different elements
         return [r.uniform(-10, 10) for _ in rows]
-    if t == "ints":       # small integer nodal values (plateaus and ties), explicit
-        nv = field["nv"]
+    if t == "ints":       # small integer nodal values (plateaus and ties), explicit; None = NaN (a node without a result)
+        nv = [float("nan") if v is None else v for v in field["nv"]]
         return [nv[n] for n, e in rows]
     if t == "introws":
         return list(field["rv"])
@@ -252,6 +382,28 @@ def parse_grad(line):
     return out
 
 
+def lsq_rank_profile(built):
+    """Independent of pyLife: singular values of every node's least-squares system (rows x_j - x_i over the nodes that
+    share an element).  -> (max s2/s1, min s2/s1, max s3/s1, min s3/s1) over the nodes."""
+    coords, elems = built[0], built[1]
+    P = np.asarray(coords, dtype=float)
+    nb = [set() for _ in coords]
+    for conn in elems:
+        for n in conn:
+            nb[n].update(conn)
+    r2, r3 = [], []
+    for n, s in enumerate(nb):
+        s.discard(n)
+        if not s:
+            continue
+        A = P[sorted(s)] - P[n]
+        sv = np.linalg.svd(A, compute_uv=False)
+        sv = list(sv) + [0.0] * (3 - len(sv))
+        r2.append(sv[1] / sv[0])
+        r3.append(sv[2] / sv[0])
+    return max(r2), min(r2), max(r3), min(r3)
+
+
 # ------------------------------------------------------------------ the property
 class C19(Prop):
     ID = "C19"
@@ -259,52 +411,135 @@ class C19(Prop):
     LEAN_MODULES = ["Proofs.C19"]
     THEOREMS = []      # filled below
     PARTIAL = {}
-    RULE = ("gradient_3D / gradient of f = g.x + c equals g at every node (tolerance 1e-9 x scale) for every mesh, id map and "
-            "row order; griddata mapping returns the field on the same points and the linear values on interior points; "
-            "is_at_surface flags exactly the boundary nodes of a hex block; hot-spot labels: >= 1 iff value >= frac*max, "
-            "classes = connected components under shared node / shared element, numbered by descending peak")
+    RULE = ("gradient_3D / gradient of f = g.x + c equals g at every node (per component: 2e-12 x max|f| / element size) for every "
+            "mesh, id map, row order, column layout and coordinate scale 1e-6..1e3; on planar / bar meshes the least-squares gradient "
+            "is the tangential part of g (minimum norm); griddata mapping returns the field on the same points and the linear values "
+            "on interior points; is_at_surface flags exactly the boundary nodes of a hex block; hot-spot labels: >= 1 iff value >= "
+            "frac*max, classes = connected components under shared node / shared element, numbered by descending peak")
     ASSUMPTIONS = [
-        "np.linalg.inv is modelled by adjugate/determinant, np.linalg.lstsq by the normal equations (minimum-norm 2x2 system for planar meshes); agreement with LAPACK is measured with tolerance 1e-8 x scale, not proved",
-        "scipy.interpolate.griddata: only the interpolation inside ONE simplex (barycentric) is modelled; the Delaunay triangulation (Qhull) is external - mapping on whole meshes is decided by the oracle only",
+        "np.linalg.inv is modelled by adjugate/determinant (a Jacobian counts as singular iff its determinant is exactly 0 - the code catches LinAlgError, which LAPACK raises on an exactly zero pivot; agreement on exactly collapsed elements only, float-singular Jacobians with a tiny non-zero determinant are not generated); agreement with LAPACK is measured with a per-component tolerance, not proved",
+        "np.linalg.lstsq(rcond=None) is modelled as the minimum-norm least-squares solution with a RELATIVE rank decision on the eigenvalue ratios of A^T A (model cut-off 1e-12 on lambda3/lambda1-like ratios; LAPACK gelsd: singular values <= eps*max(n,3)*sigma1 count as zero). The two decisions agree when sigma3/sigma1 <= eps (rows coplanar up to rounding) or >= 1e-5 (generated 3-D meshes: anisotropy <= 1e4); in between (planar meshes whose coordinates carry rounding noise, e.g. a rotated plane far from the origin) the code's component NORMAL to the plane is amplified rounding noise - on such cases only the tangential part is compared / required, the count is recorded (lsq_planar_noisy_normal)",
+        "scipy.interpolate.griddata: the Delaunay triangulation (Qhull) and the point location are external; the model interpolates on the triangulation that scipy.spatial.Delaunay returns for the same source points (first simplex whose barycentric weights are >= -1e-9; scipy's own tolerance is 100*eps): agreement is measured on whole meshes, the theorems assume a triangulation of non-degenerate simplices",
         "surface clause: quantified over untangled blocks only (every corner Jacobian positive, corner solid angles tile 4*pi at interior nodes and stay <= 3*pi at boundary nodes - checked by the generator with an independent formula); on tangled or deeply folded perturbed blocks the code's max-over-node-triples estimate of an element's solid angle over- or undershoots and nodes are mis-flagged",
-        "surface_3D: the solid-angle arithmetic (arccos/arcsin, < 4*pi - 1e-5) is not modelled; the model flags nodes of a hexahedral block with fewer than 8 incident elements; boundary <=> flagged on perturbed blocks is decided by correspondence + oracle (test, not proof)",
-        "pandas groupby / sort_index(stable) / index alignment semantics are modelled by list functions",
-        "the least-squares model addresses node rows through the id -> position map of the sorted node ids (behaviour after the repair tools/fixes/C19-gradient-node-positions.diff)",
+        "surface_3D: the solid-angle arithmetic (arccos/arcsin, < 4*pi - 1e-5) is not modelled; the model flags nodes of a hexahedral block with fewer than 8 incident elements; boundary <=> flagged on perturbed blocks is decided by correspondence + oracle (test, not proof); the oracle also compares the code's per-corner solid angle with the Van Oosterom-Strackee value (1e-6) on unperturbed boxes and as a lower bound on perturbed blocks",
+        "pandas semantics modelled by list functions and trusted: groupby (ascending keys, rows in frame order), groupby.first() / .mean(), sort_index(level=..., sort_remaining=False) being STABLE (first-element-wins depends on it), Index.duplicated(keep='first'), Index.get_indexer, Series.max / idxmax (first occurrence; NaN values are skipped: the model filters them out of the maximum, the hot-spot theorems are over a linear order where that filter is the identity - NaN entries are covered by correspondence + oracle only), boolean ^ of mis-aligned Series filling with False (hotspot.py), column selection by name",
+        "first-order elements: on 16/20-node hexahedra and 10-node tetrahedra the code (documented) uses the corner nodes only and returns 0 at the mid-side nodes; the model does the same; clause (a) fails there - open finding g3d-midside-zero",
+        "the least-squares model addresses node rows through the id -> position map of the sorted node ids (behaviour after the repair tools/fixes/C19-gradient-node-positions.diff, committed as 65c89f2)",
     ]
+    # open finding map-hull-vertex-nan: observed 0-1 of ~40 same-point cases per quick run (+ the corpus witness), 2-9 of ~400 per
+    # thorough run; more than this, more than 2 NaN in one case, or a NaN that does not show the mechanism is a new failure
+    HULL_NAN_RATE = (3, 0.04)      # allowed hits = 3 + 0.04 x number of same-point cases of the run (observed: <= 1 of ~40, <= 3 of ~400)
+    HULL_NAN_PER_CASE = 2
 
     def __init__(self):
-        self.stats = {"kinds": {}, "etype": {}, "nid": {}, "eid": {}, "rows": {}, "levels": {}, "field": {},
-                      "max_rows": 0, "impl_errors": {}, "hot_labels_max": 0, "hot_thresholded_rows": 0,
-                      "hot_zero_cases": 0, "map_nan_points": 0, "surface_flagged": 0, "surface_interior": 0}
+        self.stats = {"kinds": {}, "etype": {}, "plane": {}, "nid": {}, "eid": {}, "rows": {}, "levels": {}, "field": {},
+                      "cols": {}, "scale": {}, "max_rows": 0, "impl_errors": {}, "hot_labels_max": 0, "hot_thresholded_rows": 0,
+                      "hot_zero_cases": 0, "map_nan_points": 0, "map_same_cases": 0, "map_hull_nan_cases": 0,
+                      "map_hull_nan_nodes": 0, "map_mesh_points": 0, "surface_flagged": 0, "surface_interior": 0,
+                      "surface_angles_checked": 0, "lsq_planar_cases": 0, "lsq_planar_normal_checked": 0,
+                      "lsq_planar_noisy_normal": 0, "max_lsq_noisy_normal_over_g": 0.0, "g3d_midside_zero_nodes": 0, "g3d_unsupported_nan_nodes": 0,
+                      "grad_zero_field": 0, "worst_oracle_ratio": {}, "worst_corr_ratio": {}}
         self.exhaustive = False
         self._cache = {}
         self._results = {}
+        self._n_same = 0
+        self._hull_hits = 0
 
     # ---------------------------------------------------------------- generation
+    def _cols(self, rng, purpose):
+        mode = rng.random()
+        if mode < 0.3:
+            return None                      # the bare frame [x, y, z, v]
+        cols = {"vkey": rng.choice(["v", "v", "mises", "S_max", "fct"]), "seed": rng.randrange(10**6)}
+        extra = [n for n in DECOYS if rng.random() < 0.45]
+        if purpose == "surf":
+            extra = [n for n in extra if n != "part"] if rng.random() < 0.5 else extra
+        cols["extra"] = extra
+        cols["shuffle"] = rng.random() < 0.6
+        if purpose == "hot" and rng.random() < 0.5:
+            cols["vint"] = True
+        return cols
+
+    def _scale(self, rng, purpose, tilted=False):
+        """Coordinate scales: unit conversion (uniform 1e-6 … 1e3) and anisotropy (at most 4 decades)."""
+        mode = rng.random()
+        if mode < 0.45:
+            return None
+        if purpose == "surf":
+            # uniform scaling of any size, anisotropy up to 1e3 (the generator rejects blocks the perturbation tangles or crumples)
+            if mode < 0.7:
+                s = rng.choice([1e-6, 1e-3, 0.01, 0.5, 3.0, 100.0, 1e3])
+                return [s, s, s]
+            return [rng.choice([0.1, 0.5, 1.0, 3.0, 10.0, 100.0]) for _ in range(3)]
+        if tilted:      # lattice planes stay exactly representable under powers of two
+            s = rng.choice([2.0**-20, 2.0**-10, 0.5, 4.0, 1024.0])
+            return [s, s, s]
+        if mode < 0.75:
+            s = rng.choice([1e-6, 1e-4, 1e-3, 0.01, 0.5, 3.0, 100.0, 1e3])
+            return [s, s, s]
+        base = rng.choice([1e-6, 1e-3, 0.01, 1.0, 10.0])
+        return [base * rng.choice([1.0, 0.5, 3.0, 10.0, 100.0, 1e3, 1e4]) for _ in range(3)]
+
+    def _plane(self, rng, purpose):
+        if purpose != "lsq":
+            return rng.choice([None, None, {"kind": "z", "c": rng.choice([0.0, 1.5, -2.0])}])
+        k = rng.choice(["z", "z", "x", "y", "lattice", "lattice", "rot", "rot"])
+        if k in ("z", "x", "y"):
+            return {"kind": k, "c": rng.choice([0.0, 1.5, -2.0, 100.0])}
+        if k == "lattice":
+            while True:
+                a = [rng.randint(-2, 2) for _ in range(3)]
+                b = [rng.randint(-2, 2) for _ in range(3)]
+                n = np.cross(a, b)
+                if np.abs(n).sum() > 0 and (np.count_nonzero(n) > 1 or rng.random() < 0.2):
+                    break
+            return {"kind": k, "a": a, "b": b, "o": [float(rng.randint(-3, 3)) for _ in range(3)]}
+        q = [rng.gauss(0, 1) for _ in range(4)]
+        m = rng.choice([0.0, 0.0, 1.0, 5.0, 100.0])      # a shell part away from the origin: the rotated coordinates carry rounding noise
+        return {"kind": k, "q": q, "o": [m * rng.uniform(-1, 1) for _ in range(3)]}
+
     def _mesh(self, rng, tier, purpose):
         big = tier == "thorough"
         top = 4 if (big or rng.random() < 0.15) else 3
-        et = {"g3d": rng.choice(["hex", "hex", "tet"]), "lsq": rng.choice(["hex", "hex", "tet", "quad"]),
-              "hot": rng.choice(["hex", "tet", "quad", "quad"]), "surf": "hex", "map": rng.choice(["hex", "quad"])}[purpose]
+        et = {"g3d": rng.choice(["hex", "hex", "hex", "tet", "tet", "hex20", "hex16", "tet10", "mixed", "mixed", "odd"]),
+              "lsq": rng.choice(["hex", "hex", "tet", "quad", "quad", "quad", "hex20", "tet10", "mixed", "bar"]),
+              "hot": rng.choice(["hex", "tet", "quad", "quad", "hex20", "mixed"]), "surf": "hex",
+              "map": rng.choice(["hex", "quad"])}[purpose]
         if purpose == "surf":
             top = 4 if big else 3
             lo = 2 if rng.random() < 0.6 else 1      # all dims >= 2: the block has interior nodes
             dims = [rng.randint(lo, top) for _ in range(3)]
-        elif et == "tet":
+        elif et in ("tet", "tet10", "hex20", "hex16"):
             dims = [rng.randint(1, 2 if not big else 3) for _ in range(3)]
         elif et == "quad":
             dims = [rng.randint(1, top + 1), rng.randint(1, top + 1), 0]
+        elif et == "bar":
+            dims = [rng.randint(1, 6), 0, 0]
         else:
             dims = [rng.randint(1, top) for _ in range(3)]
         if purpose == "lsq" and et == "quad" and dims[0] * dims[1] == 1:
             dims[0] = 2
+        if et in ("odd", "mixed") and dims[0] * dims[1] * dims[2] == 1:
+            dims[rng.randrange(3)] = 2      # at least one supported element next to the unsupported one
         mesh = {"dims": dims, "etype": et, "amp": rng.choice([0.0, 0.05, 0.2, 0.3]), "pseed": rng.randrange(10**6)}
-        if rng.random() < 0.3:
-            # surface detection works with absolute solid angles (threshold 4*pi - 1e-5): needle-shaped, crumpled
-            # blocks are outside what the property can mean there, so only mild anisotropy for `surf`
-            mesh["scale"] = [rng.choice([0.5, 1.0, 3.0] if purpose == "surf" else [0.01, 0.5, 1.0, 3.0, 100.0]) for _ in range(3)]
-        if et == "quad" and rng.random() < 0.5:
-            mesh["z0"] = rng.choice([0.0, 1.5, -2.0])
+        if et in ("mixed", "odd"):
+            mesh["mseed"] = rng.randrange(10**6)
+        tilted = False
+        if et in PLANAR:
+            pl = self._plane(rng, purpose)
+            if et == "bar":
+                pl = rng.choice([{"kind": "z", "c": 0.0}, {"kind": "x", "c": 1.5},
+                                 {"kind": "lattice", "a": [rng.randint(-2, 2), rng.randint(-2, 2), rng.randint(1, 2)], "b": [0, 0, 0],
+                                  "o": [float(rng.randint(-3, 3)) for _ in range(3)]}])
+            if pl:
+                mesh["plane"] = pl
+                tilted = pl["kind"] in ("lattice", "rot")
+        sc = self._scale(rng, purpose, tilted)
+        if sc:
+            mesh["scale"] = sc
+        cols = self._cols(rng, purpose)
+        if cols:
+            mesh["cols"] = cols
         kinds = ["one", "one", "zero", "offset", "gaps", "rev", "perm", "permgaps", "neg"]
         mesh["nid"] = {"kind": rng.choice(kinds), "seed": rng.randrange(10**6)}
         mesh["eid"] = {"kind": rng.choice(kinds), "seed": rng.randrange(10**6)}
@@ -321,7 +556,7 @@ class C19(Prop):
         if mode < 0.15:
             g = [0.0, 0.0, 0.0]
             g[rng.randrange(2 if planar else 3)] = rng.choice([1.0, -3.0, 2.5])
-        elif mode < 0.25:
+        elif mode < 0.22:
             g = [0.0, 0.0, 0.0]
         else:
             s = rng.choice([1.0, 1.0, 1e-3, 1e3])
@@ -332,7 +567,7 @@ class C19(Prop):
         mesh = self._mesh(rng, tier, "hot")
         built = build(mesh)
         coords, elems, grid, rows, nid, eid = built
-        mode = rng.choice(["plateau", "plateau", "peaks", "rowwise", "negative", "smooth"])
+        mode = rng.choice(["plateau", "plateau", "peaks", "rowwise", "negative", "smooth", "nan"])
         if mode == "plateau":
             top = rng.choice([2, 3, 5])
             field = {"t": "ints", "nv": [rng.randint(0, top) for _ in coords]}
@@ -345,6 +580,13 @@ class C19(Prop):
             field = {"t": "introws", "rv": [rng.randint(0, 6) for _ in rows]}
         elif mode == "negative":
             field = {"t": "ints", "nv": [rng.randint(-6, -1) for _ in coords]}
+        elif mode == "nan":      # some nodes carry no value (NaN): pandas' max / idxmax skip them, they are never labelled
+            nv = [rng.randint(0, 5) for _ in coords]
+            for _ in range(rng.randint(1, max(1, len(nv) // 3))):
+                nv[rng.randrange(len(nv))] = None
+            if rng.random() < 0.3:
+                nv[0] = None       # the first row
+            field = {"t": "ints", "nv": nv}
         else:
             field = {"t": "quad", "seed": rng.randrange(10**6)}
         frac = rng.choice([0.9, 0.9, 0.5, 0.75, 1.0, 0.8, 0.3, 0.0, 1.1, rng.uniform(0.2, 1.0)])
@@ -354,19 +596,27 @@ class C19(Prop):
         return {"kind": "hot", "mesh": mesh, "field": field, "frac": frac, "cap": cap}
 
     def _map_case(self, rng, tier):
-        mode = rng.choice(["same", "interior", "simplex3", "simplex2", "simplex3", "simplex2"])
+        mode = rng.choice(["same", "interior", "simplex3", "simplex2", "same", "interior", "simplex3", "simplex2", "same"])
         if mode in ("same", "interior"):
             mesh = self._mesh(rng, tier, "map")
-            mesh["rows"], mesh["levels"] = "blocks", "en"
+            mesh["levels"] = "en"
+            mesh["rows"] = rng.choice(["blocks", "shufblocks"])
+            mesh.pop("plane", None)
             if mesh["amp"] == 0.0:
                 mesh["amp"] = 0.05   # exactly co-spherical grids make Qhull's choice of simplices arbitrary (harmless for linear fields, but keep it generic)
+            if "scale" in mesh and max(mesh["scale"]) / min(mesh["scale"]) > 1e3:
+                s = mesh["scale"][0]
+                mesh["scale"] = [s, s, s]      # Qhull works on the unscaled point cloud: needle-shaped clouds are another topic
+            dup = rng.random() < 0.4           # hand the full mesh frame (node rows repeated per element) to the mapper
             if mode == "same":
                 field = rng.choice([{"t": "nodal", "seed": rng.randrange(10**6)}, {"t": "quad", "seed": rng.randrange(10**6)},
                                     self._lin(rng, mesh["etype"] == "quad")])
                 # a planar mesh is mapped in 2-D (3-D Delaunay of coplanar points is a Qhull input error, not pyLife's)
-                return {"kind": "map", "mode": "same", "mesh": mesh, "field": field, "drop_z": mesh["etype"] == "quad"}
+                return {"kind": "map", "mode": "same", "mesh": mesh, "field": field, "drop_z": mesh["etype"] == "quad", "dup": dup,
+                        "tindex": rng.choice(["node", "range", "shuffled"])}
             return {"kind": "map", "mode": "interior", "mesh": mesh, "field": self._lin(rng, mesh["etype"] == "quad"),
-                    "drop_z": mesh["etype"] == "quad", "npts": rng.randint(1, 12), "tseed": rng.randrange(10**6)}
+                    "drop_z": mesh["etype"] == "quad", "npts": rng.randint(1, 12), "tseed": rng.randrange(10**6), "dup": dup,
+                    "tindex": rng.choice(["range", "shuffled"])}
         d = 3 if mode == "simplex3" else 2
         while True:
             verts = [[rng.choice([rng.uniform(-3, 3), float(rng.randint(-2, 2))]) for _ in range(d)] for _ in range(d + 1)]
@@ -394,26 +644,45 @@ class C19(Prop):
             pts.append([sum(v[c] for v in verts) / (d + 1) for c in range(d)])
         return {"kind": "map", "mode": mode, "verts": verts, "vals": vals, "pts": pts}
 
+    def _lsq_mesh_ok(self, mesh):
+        """The least-squares model is only claimed where its rank decision and LAPACK's provably coincide (see ASSUMPTIONS):
+        3-D meshes need sigma3/sigma1 >= 1e-5 at every node, planar ones sigma2/sigma1 >= 1e-5."""
+        prof = lsq_rank_profile(build(mesh))
+        et = mesh["etype"]
+        if et == "bar":
+            return True
+        if et == "quad":
+            return prof[1] >= 1e-5
+        return prof[3] >= 1e-5
+
     def generate(self, rng, tier):
         big = tier == "thorough"
         cases = []
-        # exhaustive: incident-element count of every grid node of every block up to 4x4x4 (quick: 3x3x3)
+        # exhaustive: is_at_surface on every unperturbed block up to 4x4x4 (quick: 3x3x3) - every grid node of every block
         top = 4 if big else 3
         for nx in range(1, top + 1):
             for ny in range(1, top + 1):
                 for nz in range(1, top + 1):
-                    cases.append({"kind": "inc", "dims": [nx, ny, nz]})
-        self.exhaustive = True
-        n = {"g3d": 70, "lsq": 70, "hot": 200, "map": 120, "surf": 30} if not big else \
-            {"g3d": 700, "lsq": 700, "hot": 2000, "map": 1200, "surf": 200}
+                    cases.append({"kind": "surf", "mesh": {"dims": [nx, ny, nz], "etype": "hex", "amp": 0.0, "pseed": 0,
+                                                           "nid": {"kind": "zero", "seed": 0}, "eid": {"kind": "zero", "seed": 0},
+                                                           "rows": "blocks", "rseed": 0, "levels": "en"}, "grid_exhaustive": True})
+        self.stats["exhaustive_scope_surface_blocks"] = (
+            f"is_at_surface and the model's surfaceFlags on every unperturbed hexahedral block with 1..{top} cells per axis "
+            f"({top**3} blocks, every grid node); the model's block rows (`blockRows`) are compared with the generator's")
+        n = {"g3d": 90, "lsq": 100, "hot": 200, "map": 120, "surf": 30} if not big else \
+            {"g3d": 900, "lsq": 1000, "hot": 2000, "map": 1200, "surf": 200}
         for _ in range(n["g3d"]):
             mesh = self._mesh(rng, tier, "g3d")
-            field = self._lin(rng) if rng.random() < 0.6 else \
+            field = self._lin(rng) if rng.random() < 0.65 else \
                 {"t": rng.choice(["nodal", "quad", "rowwise"]), "seed": rng.randrange(10**6)}
             cases.append({"kind": "grad", "op": "g3d", "mesh": mesh, "field": field})
         for _ in range(n["lsq"]):
             mesh = self._mesh(rng, tier, "lsq")
-            field = self._lin(rng, mesh["etype"] == "quad") if rng.random() < 0.6 else \
+            if not self._lsq_mesh_ok(mesh):
+                self.stats["lsq_rank_rejected"] = self.stats.get("lsq_rank_rejected", 0) + 1
+                mesh.pop("scale", None)
+            planar = mesh["etype"] in PLANAR
+            field = self._lin(rng) if (rng.random() < 0.65 or planar and rng.random() < 0.5) else \
                 {"t": rng.choice(["nodal", "quad", "rowwise"]), "seed": rng.randrange(10**6)}
             cases.append({"kind": "grad", "op": "lsq", "mesh": mesh, "field": field})
         for _ in range(n["hot"]):
@@ -429,6 +698,8 @@ class C19(Prop):
             cases.append({"kind": "surf", "mesh": mesh})
         for c in cases:
             self._count(c)
+        self._n_same = sum(1 for c in cases if c["kind"] == "map" and c.get("mode") == "same")
+        self._hull_hits = 0
         return cases
 
     def _count(self, c):
@@ -440,6 +711,16 @@ class C19(Prop):
             for key, val in (("etype", m.get("etype")), ("nid", m["nid"]["kind"]), ("eid", m["eid"]["kind"]),
                              ("rows", m.get("rows")), ("levels", m.get("levels"))):
                 st[key][val] = st[key].get(val, 0) + 1
+            if m.get("etype") in PLANAR:
+                pk = (m.get("plane") or {"kind": "z"})["kind"]
+                st["plane"][pk] = st["plane"].get(pk, 0) + 1
+            cols = m.get("cols")
+            ck = "bare" if not cols else ("vkey=" + cols.get("vkey", "v") + " extra=" + str(len(cols.get("extra", [])))
+                                          + (" shuffled" if cols.get("shuffle") else "") + (" int" if cols.get("vint") else ""))
+            st["cols"][ck] = st["cols"].get(ck, 0) + 1
+            sc = m.get("scale")
+            sk = "unit" if not sc else ("uniform %g" % sc[0] if sc[0] == sc[1] == sc[2] else "aniso %.0e" % (max(sc) / min(sc)))
+            st["scale"][sk] = st["scale"].get(sk, 0) + 1
         if "field" in c:
             t = c["field"]["t"]
             st["field"][t] = st["field"].get(t, 0) + 1
@@ -469,31 +750,66 @@ class C19(Prop):
             try:
                 res = self._run_impl_inner(case)
             except Exception as e:  # an exception of the code under test is an observable result
+                if not core._involves_implementation(e):
+                    raise
                 res = {"error": err(e), "message": str(e)[:200]}
         self._results[key] = res
         return res
 
+    def _map_frames(self, case):
+        """-> (source frame, target frame, expected values, source points (array), source values, target points)"""
+        built, values = self._built(case)
+        coords, elems, grid, rows, nid, eid = built
+        mesh = case["mesh"]
+        vk = vkey_of(mesh)
+        df = frame(mesh, built, values)
+        nodes = df.groupby("node_id").first()
+        crd = ["x", "y"] + ([] if case.get("drop_z") else ["z"])
+        src = df if case.get("dup") else nodes
+        if case.get("drop_z"):
+            src = src.drop(columns=["z"])
+            nodes = nodes.drop(columns=["z"])
+        if case["mode"] == "same":
+            target = nodes[[c for c in nodes.columns if c != vk]].copy()
+            expect = nodes[vk].to_numpy(dtype=float).tolist()
+        else:
+            r = random.Random(case["tseed"])
+            g, c0 = case["field"]["g"], case["field"]["c"]
+            pts = []
+            for _ in range(case["npts"]):
+                conn = elems[r.randrange(len(elems))]
+                w = [r.uniform(0.05, 1.0) for _ in conn]
+                s = sum(w)
+                pts.append([sum(wi / s * coords[n][c] for wi, n in zip(w, conn)) for c in range(3)])
+            target = pd.DataFrame(pts, columns=["x", "y", "z"])[crd]
+            target["load"] = 1.0       # a target mesh is a frame with more than the coordinates
+            expect = [g[0] * p[0] + g[1] * p[1] + g[2] * p[2] + c0 for p in pts]
+        ti = case.get("tindex", "node")
+        if ti == "range":
+            target = target.reset_index(drop=True)
+        elif ti == "shuffled":
+            ids = list(range(100, 100 + 3 * len(target), 3))
+            random.Random(len(target)).shuffle(ids)
+            target.index = pd.Index(ids, name="node_id")
+        return src, target, expect, src[crd].to_numpy(dtype=float), src[vk].to_numpy(dtype=float), target[crd].to_numpy(dtype=float)
+
     def _run_impl_inner(self, case):
         kind = case["kind"]
-        if kind == "inc":
-            nx, ny, nz = case["dims"]
-            built = build({"dims": [nx, ny, nz], "etype": "hex"})
-            cnt = [0] * len(built[0])
-            for conn in built[1]:
-                for n in conn:
-                    cnt[n] += 1
-            return {"counts": cnt}
         if kind == "grad":
             built, values = self._built(case)
+            vk = vkey_of(case["mesh"])
             df = frame(case["mesh"], built, values)
             acc = df.gradient_3D if case["op"] == "g3d" else df.gradient
-            gr = acc.gradient_of("v")
-            return {"ids": [int(i) for i in gr.index], "grad": gr[["dv_dx", "dv_dy", "dv_dz"]].to_numpy(dtype=float).tolist()}
+            gr = acc.gradient_of(vk)
+            names = [f"d{vk}_dx", f"d{vk}_dy", f"d{vk}_dz"]
+            if list(gr.columns) != names:
+                return {"error": "err:ResultColumns", "message": str(list(gr.columns))}
+            return {"ids": [int(i) for i in gr.index], "grad": gr[names].to_numpy(dtype=float).tolist()}
         if kind == "hot":
             built, values = self._built(case)
             df = frame(case["mesh"], built, values)
             kw = {} if case.get("cap") is None else {"artefact_threshold": case["cap"]}
-            hs = df.hotspot.calc("v", case["frac"], **kw)
+            hs = df.hotspot.calc(vkey_of(case["mesh"]), case["frac"], **kw)
             if not hs.index.equals(df.index):
                 return {"error": "err:IndexChanged"}
             return {"labels": [int(x) for x in hs.to_numpy()]}
@@ -505,35 +821,22 @@ class C19(Prop):
             ok = len(s) == len(df)
             for (e, n), flag in zip(s.index, s.to_numpy()):
                 per.setdefault(int(n), set()).add(bool(flag))
-            return {"flags": {n: (sorted(v)[0] if len(v) == 1 else None) for n, v in per.items()}, "rows_ok": ok,
-                    "names": list(s.index.names)}
+            out = {"flags": {n: (sorted(v)[0] if len(v) == 1 else None) for n, v in per.items()}, "rows_ok": ok,
+                   "names": list(s.index.names)}
+            # the anchored mechanism: the per-corner solid angle E and its sum per node
+            d3 = df.surface_3D._determine_is_at_surface()
+            out["E"] = {(int(e), int(n)): float(v) for (e, n), v in zip(d3.index, d3["E"].to_numpy())}
+            return out
         if kind == "map":
             mode = case["mode"]
             if mode in ("same", "interior"):
-                built, values = self._built(case)
-                coords, elems, grid, rows, nid, eid = built
-                df = frame(case["mesh"], built, values)
-                nodes = df.groupby("node_id").first()
-                if case.get("drop_z"):
-                    nodes = nodes.drop(columns=["z"])
-                crd = ["x", "y"] + ([] if case.get("drop_z") else ["z"])
-                if mode == "same":
-                    target = nodes[crd].copy()
-                    expect = nodes["v"].to_numpy(dtype=float).tolist()
-                else:
-                    r = random.Random(case["tseed"])
-                    g, c0 = case["field"]["g"], case["field"]["c"]
-                    pts = []
-                    for _ in range(case["npts"]):
-                        conn = elems[r.randrange(len(elems))]
-                        w = [r.uniform(0.05, 1.0) for _ in conn]
-                        s = sum(w)
-                        pts.append([sum(wi / s * coords[n][c] for wi, n in zip(w, conn)) for c in range(3)])
-                    target = pd.DataFrame(pts, columns=["x", "y", "z"])[crd]
-                    expect = [g[0] * p[0] + g[1] * p[1] + g[2] * p[2] + c0 for p in pts]
-                out = target.meshmapper.process(nodes, "v")
+                src, target, expect, P, V, T = self._map_frames(case)
+                out = target.meshmapper.process(src, vkey_of(case["mesh"]))
                 same_index = out.index.equals(target.index)
-                return {"vals": out["v"].to_numpy(dtype=float).tolist(), "expect": expect, "same_index": same_index}
+                vk = vkey_of(case["mesh"])
+                if list(out.columns) != [vk]:
+                    return {"error": "err:ResultColumns", "message": str(list(out.columns))}
+                return {"vals": out[vk].to_numpy(dtype=float).tolist(), "expect": expect, "same_index": same_index}
             d = 3 if mode == "simplex3" else 2
             crd = ["x", "y", "z"][:d]
             src = pd.DataFrame(case["verts"], columns=crd)
@@ -544,10 +847,21 @@ class C19(Prop):
         raise ValueError(kind)
 
     # ---------------------------------------------------------------- correspondence
+    def _triangulation(self, case):
+        """The triangulation scipy.spatial.Delaunay (the class griddata uses) returns for the source points: flat list of
+        vertex coordinates and values per simplex, for the model."""
+        key = "tri:" + json.dumps(case, sort_keys=True)
+        hit = self._cache.get(key)
+        if hit is None:
+            from scipy.spatial import Delaunay
+            src, target, expect, P, V, T = self._map_frames(case)
+            tri = Delaunay(P)
+            hit = (tri, P, V, T)
+            self._cache[key] = hit
+        return hit
+
     def model_lines(self, case):
         kind = case["kind"]
-        if kind == "inc":
-            return ["m19 inc " + " ".join(str(d) for d in case["dims"])]
         if kind == "grad":
             built, values = self._built(case)
             return [f"m19 {case['op']} " + mesh_line(built, values)]
@@ -558,17 +872,27 @@ class C19(Prop):
         if kind == "surf":
             built, values = self._built(case)
             coords, elems, grid, rows, nid, eid = built
-            return ["m19 surf " + " ".join(f"{nid[n]} {eid[e]}" for n, e in rows)]
+            out = ["m19 surf " + " ".join(f"{nid[n]} {eid[e]}" for n, e in rows)]
+            if case.get("grid_exhaustive"):
+                out.append("m19 block " + " ".join(str(d) for d in case["mesh"]["dims"]))
+            return out
         if kind == "map":
             if case["mode"] in ("same", "interior"):
-                return []     # whole-mesh mapping: the triangulation is external, oracle only
+                tri, P, V, T = self._triangulation(case)
+                d = P.shape[1]
+                toks = []
+                for sx in tri.simplices:
+                    toks.extend(f2h(x) for v in sx for x in P[v])
+                    toks.extend(f2h(V[v]) for v in sx)
+                toks.extend(f2h(x) for p in T for x in p)
+                return [f"m19 map{d} {len(tri.simplices)} " + " ".join(toks)]
             flat = [x for v in case["verts"] for x in v] + list(case["vals"]) + [x for p in case["pts"] for x in p]
             return [("m19 bary3 " if case["mode"] == "simplex3" else "m19 bary2 ") + " ".join(f2h(x) for x in flat)]
         raise ValueError(kind)
 
     def impl_all(self, cases):
         """Runs the real code on all cases (sequentially: forked workers oversubscribe the BLAS threads and are slower) and books the statistics."""
-        out = [self.impl_lines(c) for c in cases]
+        out = [self._impl_safe(c) for c in cases]
         for c in cases:
             res = self._results.get(json.dumps(c, sort_keys=True))
             if res and "error" in res:
@@ -579,73 +903,125 @@ class C19(Prop):
 
     def impl_lines(self, case):
         kind = case["kind"]
-        if kind == "map" and case["mode"] in ("same", "interior"):
-            return []
         res = self._run_impl(case)
         if "error" in res:
-            return [res["error"]]
-        if kind == "inc":
-            return [" ".join(str(c) for c in res["counts"])]
+            return [res["error"]] * (2 if case.get("grid_exhaustive") else 1)
         if kind == "grad":
             return [show_grad(res["ids"], res["grad"])]
         if kind == "hot":
             return [" ".join(str(x) for x in res["labels"])]
         if kind == "surf":
             if not res["rows_ok"]:
-                return ["err:rows"]
-            return [" ".join(f"{n}:{'?' if f is None else int(f)}" for n, f in sorted(res["flags"].items()))]
+                return ["err:rows"] * (2 if case.get("grid_exhaustive") else 1)
+            out = [" ".join(f"{n}:{'?' if f is None else int(f)}" for n, f in sorted(res["flags"].items()))]
+            if case.get("grid_exhaustive"):      # the generator's block rows (what pyLife was given), for `blockRows` of the model
+                built, values = self._built(case)
+                out.append(" ".join(f"{n} {e}" for n, e in built[3]))
+            return out
         if kind == "map":
             return [" ".join("nan" if v != v else f2h(v) for v in res["vals"])]
         raise ValueError(kind)
 
-    def _scale(self, case):
-        if case["kind"] == "grad":
+    def _grad_tol(self, case, C, C2, gnorm):
+        """Per-component tolerance of a gradient: C x eps x max|f| / (element size in that direction), plus - LAPACK's
+        inverse / SVD are accurate norm-wise, not per component - C2 x eps x anisotropy x (largest gradient component)."""
+        built, values = self._built(case)
+        vmax = max([abs(v) for v in values] + [1e-300])
+        sc = [abs(s) for s in case["mesh"].get("scale", [1.0, 1.0, 1.0])]
+        if case["mesh"].get("etype") in PLANAR and (case["mesh"].get("plane") or {}).get("kind") in ("lattice", "rot"):
+            sc = [min(sc)] * 3
+        return [C * EPS * vmax / s + C2 * EPS * (max(sc) / min(sc)) * gnorm for s in sc]
+
+    def _lsq_flat(self, case):
+        """For planar / bar least-squares cases: (orthonormal tangent basis, normal part comparable?)."""
+        mesh = case["mesh"]
+        Q = tangent_basis(mesh)
+        if Q is None:
+            return None, True
+        key = "flat:" + json.dumps(mesh, sort_keys=True)
+        hit = self._cache.get(key)
+        if hit is None:
             built, values = self._built(case)
-            span = max(abs(v) for v in values) if values else 1.0
-            sc = case["mesh"].get("scale", [1.0, 1.0, 1.0])
-            return max(1.0, span) / min(1.0, *[abs(s) for s in sc])
-        if case["kind"] == "map":
-            return max(1.0, *[abs(v) for v in case.get("vals", [1.0])])
-        return 1.0
+            prof = lsq_rank_profile(built)
+            # the rank decision is beyond doubt when the rows are coplanar (collinear) up to one rounding: LAPACK's cut-off is >= 3 eps
+            hit = (prof[2] <= EPS) if mesh["etype"] == "quad" else (prof[0] <= EPS)
+            self._cache[key] = hit
+        return Q, hit
+
+    def _note_ratio(self, table, case, ratio):
+        k = case.get("op", case["kind"]) + "/" + case["mesh"].get("etype", "hex")
+        if ratio > table.get(k, 0.0):
+            table[k] = float("%.3g" % ratio)
 
     def compare(self, case, model_out, impl_out):
         kind = case["kind"]
-        if kind in ("inc", "hot", "surf"):
+        if kind in ("hot", "surf"):
             return super().compare(case, model_out, impl_out)
         if len(model_out) != len(impl_out):
             return f"length {len(model_out)} vs {len(impl_out)}"
-        tol = 1e-8 * self._scale(case)
         for a, b in zip(model_out, impl_out):
-            if b.startswith("err:") or a.startswith("bad"):
+            if b.startswith("err:") or b.startswith("EXC") or a.startswith("bad"):
                 return f"model={a[:120]!r} impl={b[:120]!r}"
             if kind == "grad":
+                Q, normal_ok = self._lsq_flat(case) if case["op"] == "lsq" else (None, True)
                 ga, gb = parse_grad(a), parse_grad(b)
+                gmax = max([abs(t) for _, y in gb if y for t in y if t == t] + [0.0])
+                tol = self._grad_tol(case, 2e5, 1e3, gmax)
                 if [i for i, _ in ga] != [i for i, _ in gb]:
                     return f"node ids/order differ: model={[i for i, _ in ga][:12]} impl={[i for i, _ in gb][:12]}"
+                worst = 0.0
                 for (i, x), (_, y) in zip(ga, gb):
                     if x is None or y is None:
-                        if not (x is None and (y is None or any(t != t for t in y))):
+                        if not (x is None and (y is None or all(t != t for t in y))):
                             return f"node {i}: model={x} impl={y}"
                         continue
-                    for u, v in zip(x, y):
-                        if not (abs(u - v) <= tol + 1e-8 * max(abs(u), abs(v))):
-                            return f"node {i}: model={x} impl={y} (tol {tol:g})"
+                    d = np.subtract(x, y)
+                    if Q is not None and not normal_ok:
+                        d = Q @ (Q.T @ d)          # tangential part only (see ASSUMPTIONS: rank decision under rounding noise)
+                    for k in range(3):
+                        lim = tol[k] + 1e-10 * max(abs(x[k]), abs(y[k]))
+                        if not (abs(d[k]) <= lim):
+                            return f"node {i}: model={x} impl={y} (component {k}: |diff| {abs(d[k]):.3g} > {lim:.3g})"
+                        worst = max(worst, abs(d[k]) / lim)
+                self._note_ratio(self.stats["worst_corr_ratio"], case, worst)
             else:
                 ta, tb = a.split(), b.split()
                 if len(ta) != len(tb):
                     return f"{len(ta)} vs {len(tb)} values"
+                mesh_mode = case["mode"] in ("same", "interior")
+                if mesh_mode:
+                    tri, P, V, T = self._triangulation(case)
+                    sc = max([1e-300] + [abs(v) for v in V])
+                    tol = 1e-9 * sc
+                else:
+                    tol = 1e-8 * max(1.0, *[abs(v) for v in case["vals"]])
                 for j, (u, v) in enumerate(zip(ta, tb)):
                     if (u == "nan") != (v == "nan"):
+                        if mesh_mode and v == "nan" and self._hull_vertex_mechanism(case, j):
+                            continue          # the open finding map-hull-vertex-nan (scipy's point location); the oracle reports it
                         return f"point {j}: model={u} impl={v}"
                     if u != "nan" and not (abs(h2f(u) - h2f(v)) <= tol):
-                        return f"point {j}: model={h2f(u)!r} impl={h2f(v)!r}"
+                        return f"point {j}: model={h2f(u)!r} impl={h2f(v)!r} (tol {tol:.3g})"
         return None
+
+    def _hull_vertex_mechanism(self, case, j):
+        """The mechanism of the open finding map-hull-vertex-nan, evaluated independently of pyLife: target point j IS a source
+        point, that point is a vertex of the convex hull of the source points, and scipy's point location finds a simplex for
+        it as soon as the inside-test tolerance is 1e-9 instead of the default 100 eps (i.e. the default walk rejects it by
+        rounding only)."""
+        tri, P, V, T = self._triangulation(case)
+        p = T[j]
+        hits = np.nonzero((P == p).all(axis=1))[0]
+        if len(hits) == 0:
+            return False
+        hull = set(int(i) for i in tri.convex_hull.ravel())
+        if not any(int(i) in hull for i in hits):      # (of repeated source points Qhull keeps one as the vertex)
+            return False
+        return int(tri.find_simplex(p, tol=1e-9)) >= 0
 
     # ---------------------------------------------------------------- oracle (independent of the Lean model)
     def oracle(self, case):
         kind = case["kind"]
-        if kind == "inc":
-            return None
         res = self._run_impl(case)
         if kind == "grad":
             return self._oracle_grad(case, res)
@@ -661,39 +1037,85 @@ class C19(Prop):
         built, values = self._built(case)
         coords, elems, grid, rows, nid, eid = built
         op = case["op"]
-        positional = op == "lsq" and not is_one_to_n(nid)
-        klass = "lsq-node-id-position" if positional else f"{op}-gradient-inexact"
+        mesh = case["mesh"]
+        et = mesh.get("etype", "hex")
+        klass = f"{op}-gradient-inexact"
         what = "gradient (least squares)" if op == "lsq" else "gradient_3D"
         if "error" in res:
-            return (f"{what} raises {res['error'][4:]} ({res.get('message', '')}) on a valid mesh with node ids "
-                    f"{sorted(nid)[:6]}…", klass if positional else f"{op}-raises")
+            return (f"{what} raises {res['error'][4:]} ({res.get('message', '')}) on a valid mesh ({et}, node ids "
+                    f"{sorted(nid)[:6]}…, columns {mesh.get('cols')})", f"{op}-raises")
         if sorted(res["ids"]) != sorted(nid):
             return (f"{what}: result rows {len(res['ids'])} do not cover the {len(nid)} nodes once", f"{op}-node-set")
         if case["field"]["t"] != "lin":
             return None
-        g = list(case["field"]["g"])
-        if case["mesh"].get("etype") == "quad":
-            g[2] = 0.0
-        sc = case["mesh"].get("scale", [1.0, 1.0, 1.0])
-        tol = 1e-9 * max(1.0, max(abs(v) for v in values)) / min(1.0, *[abs(s) for s in sc])
-        worst = 0.0
+        g = np.array(case["field"]["g"], dtype=float)
+        if not g.any():
+            self.stats["grad_zero_field"] += 1
+        tol = self._grad_tol(case, 1e4, 50.0, float(np.abs(g).max()))
+        Q, normal_ok = (None, True)
+        expect = g
+        if op == "lsq" and et in PLANAR:
+            # planar / bar mesh: the derivative normal to the mesh is not determined by the data; the minimum-norm
+            # least-squares solution (what np.linalg.lstsq returns) is the tangential part of g
+            Q, normal_ok = self._lsq_flat(case)
+            expect = Q @ (Q.T @ g)
+            self.stats["lsq_planar_cases"] += 1
+            self.stats["lsq_planar_normal_checked" if normal_ok else "lsq_planar_noisy_normal"] += 1
+        # per node: which local position does the node have in the element whose gradient the code reports (the first
+        # element in ascending element id that lists the node)?
+        role = {}
+        if op == "g3d":
+            for e in sorted(range(len(elems)), key=lambda e: eid[e]):
+                conn = elems[e]
+                nc = NCORNER.get(len(conn))
+                for a, n in enumerate(conn):
+                    role.setdefault(n, "unsupported" if nc is None else ("corner" if a < nc else "midside"))
+        by_id = {i: n for n, i in enumerate(nid)}
+        worst = (0.0, None)
         for i, row in zip(res["ids"], res["grad"]):
-            for u, v in zip(row, g):
-                d = abs(u - v) if u == u else float("inf")
-                if d > worst:
-                    worst, wi, wrow = d, i, row
-        if worst > tol:
-            return (f"{what} of the linear field g={g} is {wrow} at node {wi} (error {worst:.3g} > {tol:.3g})", klass)
+            n = by_id[i]
+            rl = role.get(n, "corner")
+            if rl == "unsupported":
+                # not an element of the property's quantifier (hexahedral / tetrahedral): the code warns and leaves NaN
+                if not all(x != x for x in row):
+                    return (f"{what}: node {i} belongs first to a 6-node element (unsupported), result {row} instead of NaN", f"{op}-unsupported")
+                self.stats["g3d_unsupported_nan_nodes"] += 1
+                continue
+            if rl == "midside" and g.any() and all(x == 0.0 for x in row):
+                # OPEN FINDING g3d-midside-zero: exactly (0, 0, 0) at a mid-side node of a quadratic element (documented:
+                # "The result contains zeros for all following nodes"); any other value there is judged like a corner
+                self.stats["g3d_midside_zero_nodes"] += 1
+                d = (f"{what} of the linear field g={g.tolist()} is exactly (0, 0, 0) at node {i}, a mid-side node of the {len(elems[0])}-node "
+                     f"element mesh ({et}); the corner nodes carry g")
+                if not self.known("g3d-midside-zero", d):
+                    return (d, "g3d-midside-zero")
+                continue
+            dv = np.subtract(row, expect)
+            if Q is not None and not normal_ok:
+                dn = dv - Q @ (Q.T @ dv)
+                rel = float(np.abs(dn).max() / max(np.abs(g).max(), 1e-300)) if g.any() else 0.0
+                if rel == rel and rel > self.stats["max_lsq_noisy_normal_over_g"]:
+                    self.stats["max_lsq_noisy_normal_over_g"] = float("%.3g" % rel)
+                dv = Q @ (Q.T @ dv)
+            for k in range(3):
+                dk = abs(dv[k]) if dv[k] == dv[k] else float("inf")
+                if dk / tol[k] > worst[0]:
+                    worst = (dk / tol[k], (i, row, k, dk))
+        if worst[0] > 1.0:
+            i, row, k, dk = worst[1]
+            return (f"{what} of the linear field g={g.tolist()} (expected {np.asarray(expect).tolist()}) is {row} at node {i} "
+                    f"(component {k}: error {dk:.3g} > {tol[k]:.3g}; mesh {et}, scale {mesh.get('scale')})", klass)
+        self._note_ratio(self.stats["worst_oracle_ratio"], case, worst[0])
         return None
 
     def _oracle_hot(self, case, res):
         built, values = self._built(case)
         coords, elems, grid, rows, nid, eid = built
         if "error" in res:
-            return (f"hotspot.calc raises {res['error']}", "hot-raises")
+            return (f"hotspot.calc raises {res['error']} ({res.get('message', '')})", "hot-raises")
         labels = res["labels"]
         cap = case.get("cap")
-        cand = [v for v in values if cap is None or v < cap]
+        cand = [v for v in values if v == v and (cap is None or v < cap)]      # NaN entries never enter the maximum
         n = len(rows)
         if not cand:
             if any(labels):
@@ -749,7 +1171,7 @@ class C19(Prop):
         built, values = self._built(case)
         coords, elems, grid, rows, nid, eid = built
         if "error" in res:
-            return (f"is_at_surface raises {res['error']}", "surface-raises")
+            return (f"is_at_surface raises {res['error']} ({res.get('message', '')})", "surface-raises")
         if not res["rows_ok"]:
             return ("is_at_surface does not return one row per mesh row", "surface-rows")
         nx, ny, nz = case["mesh"]["dims"]
@@ -759,6 +1181,21 @@ class C19(Prop):
             if f is None or f != boundary:
                 return (f"node {nid[n]} at grid position {(i, j, k)} of the {nx}x{ny}x{nz} block: boundary={boundary}, flagged={f}", "surface-flag")
             self.stats["surface_flagged" if boundary else "surface_interior"] += 1
+        # the mechanism: the solid angle an element subtends at one of its corners.  The code takes the maximum over all
+        # triples of the element's other nodes; that contains the triple of the three element edges (Van Oosterom-Strackee
+        # value computed independently): equal on cubes, a lower bound elsewhere.  (On boxes with unequal edges the code's
+        # value for triples that are coplanar with the corner is NOT their solid angle 0 but up to pi - the fall-back
+        # formulas cosB / cosC of _solid_angle divide by sin b sin c instead of sin a sin c / sin a sin b - so the maximum
+        # overshoots pi/2 there; the flags only suffer at aspect ratios >= 1e8.  Observation, not part of clause (d).)
+        ang = corner_angles(built)
+        sc = case["mesh"].get("scale", [1.0, 1.0, 1.0])
+        box = float(case["mesh"].get("amp", 0.0)) == 0.0 and sc[0] == sc[1] == sc[2]
+        for (ei, a), w in ang.items():
+            E = res["E"].get((eid[ei], nid[elems[ei][a]]))
+            if E is None or not (E >= w - 1e-6) or (box and not (abs(E - w) <= 1e-6)):
+                return (f"solid angle of element {eid[ei]} at its node {nid[elems[ei][a]]}: code {E!r}, edge-triple value {w!r}"
+                        f" ({'cube: must be equal' if box else 'must not be smaller'}, 1e-6)", "surface-solid-angle")
+            self.stats["surface_angles_checked"] += 1
         return None
 
     def _oracle_map(self, case, res):
@@ -768,18 +1205,36 @@ class C19(Prop):
         if mode in ("same", "interior"):
             if not res["same_index"]:
                 return ("result index differs from the target index", "map-index")
+            if len(res["vals"]) != len(res["expect"]):
+                return (f"{len(res['vals'])} mapped values for {len(res['expect'])} target points", "map-index")
             sc = max(1.0, *[abs(e) for e in res["expect"]])
-            msc = case["mesh"].get("scale", [1.0, 1.0, 1.0])
-            tol = 1e-9 * sc / min(1.0, *[abs(s) for s in msc])
+            tol = 1e-9 * sc
+            if mode == "same":
+                self.stats["map_same_cases"] += 1
+            self.stats["map_mesh_points"] += len(res["vals"])
+            nan_known = []
+            out = None
             for j, (v, e) in enumerate(zip(res["vals"], res["expect"])):
-                if mode == "same" and v != v:
-                    # known finding: scipy's find_simplex walk declares a source node on the convex hull "outside"
-                    # when a neighbouring sliver simplex puts it ~1e-14 beyond a hull facet
-                    return (f"mapping onto the same points: node {j} (a source point itself) gets NaN instead of {e!r}",
-                            "map-hull-vertex-nan")
-                if not (abs(v - e) <= tol):
-                    return (f"mapping ({mode}): point {j} gets {v!r}, expected {e!r}", f"map-{mode}")
-            return None
+                if mode == "same" and v != v and self._hull_vertex_mechanism(case, j):
+                    # OPEN FINDING map-hull-vertex-nan, identified by its mechanism (see _hull_vertex_mechanism), not by the symptom
+                    nan_known.append(j)
+                    continue
+                if not (abs(v - e) <= tol) and out is None:
+                    out = (f"mapping ({mode}): point {j} gets {v!r}, expected {e!r}", f"map-{mode}")
+            if nan_known:
+                self.stats["map_hull_nan_cases"] += 1
+                self.stats["map_hull_nan_nodes"] += len(nan_known)
+                self._hull_hits += 1
+                allowed = self.HULL_NAN_RATE[0] + self.HULL_NAN_RATE[1] * self._n_same
+                d = (f"mapping onto the same points: hull vertex/vertices {nan_known} (source points themselves; found by "
+                     f"find_simplex with tol=1e-9) get NaN instead of their value")
+                if len(nan_known) > self.HULL_NAN_PER_CASE:
+                    return (d + f" - {len(nan_known)} in one case, more than the open finding covers", "map-same")
+                if self._hull_hits > allowed:
+                    return (d + f" - hit {self._hull_hits} of this run, more than the recorded rate allows ({allowed:.1f})", "map-same-nan-rate")
+                if not self.known("map-hull-vertex-nan", d) and out is None:
+                    out = (d, "map-hull-vertex-nan")
+            return out
         # one simplex: independent barycentric evaluation with numpy
         d = 3 if mode == "simplex3" else 2
         V = np.array(case["verts"], dtype=float)
@@ -802,13 +1257,15 @@ class C19(Prop):
     # ---------------------------------------------------------------- bookkeeping
     def nontrivial(self, case, model_out):
         kind = case["kind"]
-        if kind == "inc":
-            return None if max(case["dims"]) < 2 else json.dumps(case, sort_keys=True)
+        if kind == "surf":
+            return json.dumps(case, sort_keys=True) if max(case["mesh"]["dims"]) >= 2 else None
         if kind == "hot":
             labs = set(model_out[0].split()) if model_out else set()
             return json.dumps(case, sort_keys=True) if len(labs) >= 2 else None
-        if kind == "map" and not model_out:
-            return None
+        if kind == "grad":
+            f = case["field"]
+            if f["t"] == "lin" and not any(f["g"]):
+                return None      # the zero field: every operator returns 0
         return json.dumps(case, sort_keys=True)
 
     def shrink(self, case, still_fails):
@@ -835,15 +1292,33 @@ class C19(Prop):
                     x["mesh"]["dims"][ax] -= 1
                     if "nv" in x.get("field", {}) or "rv" in x.get("field", {}):
                         continue
+                    if m.get("etype") in ("odd", "mixed") and np.prod(x["mesh"]["dims"]) < 2:
+                        continue
                     yield x
             if m.get("amp", 0.0) != 0.0 and not (case["kind"] == "map"):
                 x = c()
                 x["mesh"]["amp"] = 0.0
                 yield x
+            if "cols" in m:
+                x = c()
+                del x["mesh"]["cols"]
+                yield x
+                if m["cols"].get("shuffle"):
+                    x = c()
+                    x["mesh"]["cols"]["shuffle"] = False
+                    yield x
+                for name in m["cols"].get("extra", []):
+                    x = c()
+                    x["mesh"]["cols"]["extra"] = [n for n in m["cols"]["extra"] if n != name]
+                    yield x
             if "scale" in m:
                 x = c()
                 del x["mesh"]["scale"]
                 yield x
+                if len(set(m["scale"])) > 1:
+                    x = c()
+                    x["mesh"]["scale"] = [min(m["scale"])] * 3
+                    yield x
             if m.get("rows") != "blocks":
                 x = c()
                 x["mesh"]["rows"] = "blocks"
@@ -869,6 +1344,10 @@ class C19(Prop):
                 x = c()
                 x["field"]["g"] = [0.0 if v == 0 else 1.0 for v in f["g"]]
                 yield x
+        if case["kind"] == "map" and case.get("dup"):
+            x = c()
+            x["dup"] = False
+            yield x
         if case["kind"] == "map" and "pts" in case and len(case["pts"]) > 1:
             for i in range(len(case["pts"])):
                 x = c()
@@ -878,28 +1357,57 @@ class C19(Prop):
 
 _T = "PylifeVerif.C19."
 C19.THEOREMS = [_T + n for n in [
+    # (a) gradient_3D
     "hex_gradient_exact",
     "hex_gradient_exact_all",
     "simplex_gradient_exact",
-    "gradient3D_exact",
+    "hexJ_corner_det",
+    "gradient3D_exact_partial",
+    "gradient3D_nodes",
+    "gradient3D_exact_quadratic",
+    "gradient3D_midside_zero_witness",
+    # (a) gradient (least squares)
     "lstsq_exact",
-    "lstsq_exact_planar",
     "lstsq_full_rank",
+    "lstsq_exact_full_rank",
+    "lstsq_min_norm_planar",
+    "lstsq_exact_planar",
+    "lstsq_min_norm_line",
     "gradientLsq_exact",
+    "gradientLsq_exact_full_rank",
     "gradientLsq_exact_planar",
     "gradientLsq_nodes",
+    # (b), (c) mapping
     "barycentric_reproduces_linear",
     "barycentric_reproduces_linear_2d",
     "barycentric_at_vertex",
+    "barycentric_at_vertex_2d",
+    "mapMesh_linear_interior",
+    "mapMesh_same_point",
+    "mapMesh_outside_iff",
+    "mapMesh_linear_interior_2d",
+    "mapMesh_same_point_2d",
+    "mapMesh_outside_iff_2d",
+    # (e), (f), (g) hot spots
     "hotspot_label_pos_iff",
     "hotspot_class_closed",
     "hotspot_class_connected",
     "hotspot_labels_descending_peak",
     "hotspot_labels_contiguous",
+    # (d) surface
     "surface_block_interior_iff_partial",
+    "surfaceFlags_block_partial",
+    "surfaceFlags_block_covers",
 ]]
 C19.PARTIAL = {
+    _T + "gradient3D_exact_partial":
+        "clause (a) for gradient_3D is proved for meshes of 8-node hexahedra and 4-node tetrahedra; on 16/20-node hexahedra and 10-node "
+        "tetrahedra the full statement is false for the unchanged code (mid-side nodes get exactly 0: gradient3D_midside_zero_witness, "
+        "gradient3D_exact_quadratic states what holds) - open finding g3d-midside-zero",
     _T + "surface_block_interior_iff_partial":
         "only the combinatorial statement (a grid node of an nx x ny x nz hexahedral block is interior iff 8 elements meet there) is proved; "
         "that the solid-angle sum of surface.py is < 4*pi - 1e-5 exactly at the nodes with fewer than 8 elements is floating-point geometry, decided by correspondence + oracle (test)",
+    _T + "surfaceFlags_block_partial":
+        "about the model function the driver runs (surfaceFlags on the (node_id, element_id) rows of a block, any injective numbering, any row order); "
+        "the same gap to the code's solid-angle arithmetic as surface_block_interior_iff_partial",
 }
